@@ -5,7 +5,7 @@ from simlib import catalog, evmodel, models, timemodels as tm, vt
 from simlib.core import Outcome
 from props.c18 import MWin
 
-FORMS = ["group_by", "group_by", "group_by_until", "group_by_until", "partition", "partition_indexed"]
+FORMS = ["group_by", "group_by", "group_by_until", "group_by_until", "group_by_until_self", "partition", "partition_indexed"]
 
 
 def key_of(sc):
@@ -20,7 +20,7 @@ class Prop:
     quick_runs = 120000
     thorough_runs = 2500000
     rule = ("one generated cold/hot/sync timeline through group_by and group_by_until (key functions with 1-4 keys, optional element "
-            "mapper, duration sources from a cold pool expiring groups at arbitrary later times) with every emitted group subscribed on "
+            "mapper, duration sources from a cold pool expiring groups at arbitrary later times, or derived from the group itself: expiry after k+1 of its elements) with every emitted group subscribed on "
             "receipt, and through partition / partition_indexed with both outputs subscribed; compared with an event-driven reference: a "
             "new group the first time a key is seen (or seen again after its group expired), every element delivered to exactly the live "
             "group of its key in arrival order, open groups ended with the source's terminal notification, each element to exactly one "
@@ -39,6 +39,8 @@ class Prop:
         sc["r"] = rng.randrange(sc["m"])
         if form == "group_by_until":
             sc["pool"] = [ctx.new_source("cold", prefix="p", maxn=1, positive_first=True) for _ in range(2)]
+        if form == "group_by_until_self":
+            sc["k"] = rng.randrange(0, 3)  # a group expires on its own traffic: after k + 1 of its elements
         sc["sources"] = ctx.sources
         if not part and rng.random() < 0.3:
             sc["outer_take"] = rng.randrange(1, 4)  # the stream of groups is cut by take(k): the groups handed out so far live on
@@ -58,6 +60,8 @@ class Prop:
         if f == "group_by_until":
             pool = [w.sources[p] for p in sc["pool"]]
             return s.pipe(ops.group_by_until(key, em, lambda g: pool[g.key % len(pool)]), *cut)
+        if f == "group_by_until_self":
+            return s.pipe(ops.group_by_until(key, em, lambda g: g.pipe(ops.skip(sc["k"]))), *cut)
         m, r = sc["m"], sc["r"]
         if f == "partition":
             outs = s.pipe(ops.partition(lambda v: vt.h(v) % m == r))
@@ -153,6 +157,12 @@ class Prop:
                         return
             if groups.get(k) is g:
                 g.events.append((eng.now, "N", em(v)))
+                if f == "group_by_until_self":
+                    g.seen = getattr(g, "seen", 0) + 1
+                    if g.seen == sc["k"] + 1:  # its duration observable (the group itself, minus k elements) fires
+                        del groups[k]
+                        g.events.append((eng.now, "C", None))
+                        group_gone(g)
 
         tm.single(eng, sid, on_next, lambda e: terminal("E", e), lambda: terminal("C"))
 
